@@ -185,7 +185,9 @@ static void recCTRSteps(const octet key[32], const octet iv[32], const size_t* l
 {
 	octet* xs[8]; octet* ys[8]; octet iv2[32]; size_t i;
 	octet* state = st_alloc(brngCTR_keep());
+	/* iv == 0: brng.h "a null iv may be passed: the zero synchro value is used" (logged as 32 zero octets) */
 	brngCTRStart(state, key, iv);
+	if (!iv) { static const octet zero32[32] = {0}; iv = zero32; }
 	for (i = 0; i < cnt; ++i)
 	{
 		xs[i] = st_alloc(lens[i]); ys[i] = st_alloc(lens[i]);
@@ -241,6 +243,11 @@ static void recBrng(void)
 			sprintf(cls, "steps:%u:iv:ff=%d", (unsigned)i, nff);
 			recCTRSteps(key, iv, seqs[i], 5, i % 2, cls);
 		}
+		/* the null-pointer form of the synchro value (the form rng.c uses), and the explicit zero value */
+		vxRandBuf(key, 32);
+		recCTRSteps(key, 0, seqs[0], 5, 0, "steps:0:iv:null");
+		recCTRSteps(key, 0, seqs[3], 5, 1, "steps:3:iv:null");
+		memset(iv, 0, 32); recCTRSteps(key, iv, seqs[0], 5, 0, "steps:0:iv:zero");
 	}
 	/* HMAC: key / IV lengths, one-shot */
 	{
